@@ -162,7 +162,8 @@ pub fn run_job(spec: &JobSpec, progress: &mut dyn FnMut(i64)) -> JobResult {
         None => return out,
     };
     let only: Option<usize> = spec.params.get("only_index").and_then(|v| v.as_u64()).map(|v| v as usize);
-    for i in 0..job.len() {
+    let start: usize = spec.params.get("start_index").and_then(|v| v.as_u64()).unwrap_or(0) as usize;
+    for i in start..job.len() {
         if let Some(o) = only {
             if o != i {
                 continue;
